@@ -376,3 +376,17 @@ func PkgPathOf(fn *ssa.Function) string {
 	}
 	return ""
 }
+
+// FuncValue returns the function a value denotes when it is a function literal: a
+// closure (MakeClosure) or a literal without free variables (plain *ssa.Function).
+func FuncValue(v ssa.Value) *ssa.Function {
+	switch t := v.(type) {
+	case *ssa.MakeClosure:
+		return t.Fn.(*ssa.Function)
+	case *ssa.Function:
+		return t
+	case *ssa.ChangeType:
+		return FuncValue(t.X)
+	}
+	return nil
+}
